@@ -102,7 +102,7 @@ const VhSpec kSpec = {
     kKinds,
     K_COUNT,
     60,
-    { "C14", "C15", "C16", nullptr },
+    { "C14", "C15", "C16", "C13", nullptr },
     { "raw", "tiff", "tiff_json", "trash", "two_acquisitions_one_device", "short_write_inside_multiframe_packet", "short_writes",
       "zero_length_write", "multi_packet", "file_uri", "absolute_path", "metadata", "empty_metadata_after_nonempty", "set_rejected",
       "fault_fired", "fault_open", "fault_flock", "fault_pwrite", "fault_persistent", "device_used_after_fault", "failed_append_reported",
@@ -113,6 +113,8 @@ const VhSpec kSpec = {
       "C15 non-trivial: a TIFF file was read back AND (N>=2 frames in >=2 packets, or >=2 start/stop cycles on one device, or tiff-json)",
       "C16 non-trivial: an injected fault fired and the device was used again afterwards, or close while running / without start with the "
       "descriptor ledger armed",
+      "C13 (integration part) non-trivial: a device that keeps a copy of the properties (raw, tiff-json, trash) was configured with credentials or "
+      "metadata, a file:// uri or a second time, and its copy was read back with storage_get",
       nullptr },
 };
 
@@ -414,6 +416,13 @@ do_set(Ctx& x, unsigned spelling, uint16_t meta_sel, uint16_t scale_sel)
         mdesc = a.meta.c_str();
         x.c.cls(CL_METADATA);
     }
+    // credentials (kept by the devices that copy the properties; never used for file storage)
+    std::string key, secret;
+    if ((meta_sel >> 10) % 3 == 0) {
+        key = "AKIA" + std::to_string(meta_sel * 7919u);
+        secret = std::string(1 + (meta_sel >> 12) * 3, 's') + std::to_string(scale_sel);
+        storage_properties_set_access_key_and_secret(&props, key.c_str(), key.size() + 1, secret.c_str(), secret.size() + 1);
+    }
     x.c.trace("SET uri=%s%s scale=(%g,%g) metadata=%.80s%s", uri.c_str(), pad ? (junk ? " [in a larger buffer, junk after the terminator]" : " [in a larger, zero-padded buffer]") : "", sc.x, sc.y, mdesc,
               strlen(mdesc) > 80 ? "..." : "");
     op_begin();
@@ -427,6 +436,37 @@ do_set(Ctx& x, unsigned spelling, uint16_t meta_sel, uint16_t scale_sel)
         x.c.trace("    -> rejected (state %s)", device_state_as_string(storage_get_state(x.dev)));
         x.configured = false;
         return;
+    }
+    // C13, integration part: the device's own copy of the properties equals what was configured, field by
+    // field (raw, tiff-json and trash copy the properties with storage_properties_copy; raw and tiff-json strip file://)
+    if (x.kind != 1) {
+        StorageProperties got;
+        memset(&got, 0, sizeof got);
+        if (storage_get(x.dev, &got) == Device_Ok) {
+            auto cs = [](const String& st) { return std::string(st.str && st.nbytes ? st.str : ""); };
+            std::string want_uri = x.kind == 3 ? uri : absolute ? a.path : std::string(name); // (trash keeps the uri as given)
+            struct
+            {
+                const char* field;
+                std::string got, want;
+            } f[4] = { { "uri", cs(got.uri), want_uri },
+                       { "external_metadata_json", cs(got.external_metadata_json), a.meta_set ? a.meta : std::string() },
+                       { "access_key_id", cs(got.access_key_id), key },
+                       { "secret_access_key", cs(got.secret_access_key), secret } };
+            for (auto& q : f)
+                if (q.got != q.want && !x.c.ended) {
+                    if (x.c.fail_soft("C13", "device-copy", q.field, "%s: after set, the device's copy of %s is \"%.60s\", configured was \"%.60s\"", kKindName[x.kind], q.field,
+                                      q.got.c_str(), q.want.c_str()))
+                        return;
+                    break;
+                }
+            if (!x.c.ended && (got.pixel_scale_um.x != sc.x || got.pixel_scale_um.y != sc.y))
+                if (x.c.fail_soft("C13", "device-copy", "pixel_scale_um", "%s: after set, the device's copy of the pixel scale is (%g,%g), configured was (%g,%g)", kKindName[x.kind],
+                                  got.pixel_scale_um.x, got.pixel_scale_um.y, sc.x, sc.y))
+                    return;
+            if (!key.empty() || a.meta_set || file_uri || x.acq_on_device >= 1)
+                x.c.nontrivial(3);
+        }
     }
     if (!a.meta_set && x.prev_meta_nonempty)
         x.c.cls(CL_METADATA_EMPTY_AFTER_NONEMPTY);
